@@ -20,7 +20,7 @@ func init() {
 	register(&run.Check{
 		ID:    "C17",
 		Level: "model_checking",
-		Rule: "explicit-state search over builder histories: every sequence of <=3 (thorough 4) calls over a 49-call alphabet (element / attribute / style rules in lower- and upper-case spellings and every scope; every boolean option with true and false; skip/keep content on two names in two spellings; scheme registrations incl. custom checks and patterns; two sandbox sets; rewriter) is executed on a fresh real policy. " +
+		Rule: "explicit-state search over builder histories: every sequence of <=3 (thorough 4) calls over a 66-call alphabet (every call that uses an upper-case spelling has its lower-case twin) (element / attribute / style rules in lower- and upper-case spellings and every scope; every boolean option with true and false; skip/keep content on two names in two spellings; scheme registrations incl. custom checks and patterns; two sandbox sets; rewriter) is executed on a fresh real policy. " +
 			"Abstract state (reference model) = canonical rule set of the harness's spec view (names lower-cased, duplicates and order removed, last value of each switch, documented couplings). Additivity: after one more AllowElements / AllowElementsMatching / AllowAttrs / AllowNoAttrs call every tag and attribute kept before is still kept (histories <=3). Conformance: every history reaching an abstract state must reproduce, byte for byte, the probe-output vector (46 probe documents) of the first history that reached it. " +
 			"Independence: (first, in a pristine process) for every base and every call of the alphabet, a fresh policy built after another instance was extended, and the instance built before, reproduce the original vector; then for every pair of histories (A of length <=2, B of length <=1; B of length 2 next to A of length <=1 on the plain base) over a 13-call sub-alphabet and every interleaving of the two, built on two policy objects from each of NewPolicy / UGCPolicy / StrictPolicy, policy A's vector equals A built alone, before and after B is extended. " +
 			"states = abstract states reached, transitions = histories executed (each is one path from the initial state), traces validated = histories replayed against the implementation (all of them); non-trivial = histories that reached an already-visited abstract state through a different call sequence.",
@@ -63,7 +63,15 @@ func c17Alphabet() []C {
 		al = append(al, b(op)...)
 	}
 	al = append(al, els("p", "span"), els("iframe", "img", "a"), attrsOn([]string{"sandbox", "crossorigin"}, "", "iframe", "img"),
-		els("SPAN", "A"), C{Op: "AllowNoAttrs", Scope: "on", On: []string{"SPAN", "img"}})
+		els("SPAN", "A"), C{Op: "AllowNoAttrs", Scope: "on", On: []string{"SPAN", "img"}},
+		// lower-case twins of the calls above that use upper-case spellings (same rule, other spelling)
+		attrsOn([]string{"id"}, `^[a-z]+$`, "span"), attrsGlob([]string{"title"}, "Paragraph"), attrsPat([]string{"id", "name"}, `^[0-9]+$`, reMyX),
+		attrsOn([]string{"href", "src", "rel", "target"}, "", "a", "img", "iframe"), C{Op: "AllowNoAttrs", Scope: "on", On: []string{"a"}},
+		C{Op: "AllowStyles", Names: []string{"color"}, Enum: []string{"red"}, Scope: "on", On: []string{"p", "span"}}, attrsGlob([]string{"style"}, ""),
+		C{Op: "SkipElementsContent", Names: []string{"b", "span"}}, C{Op: "AllowElementsContent", Names: []string{"b", "iframe"}},
+		C{Op: "AllowURLSchemes", Names: []string{"http", "mailto"}}, C{Op: "AllowURLSchemeWithCustomPolicy", Names: []string{"http"}, Fn: "no-query"},
+		els("span", "a"), C{Op: "AllowNoAttrs", Scope: "on", On: []string{"span", "img"}},
+		opt("RequireNoFollowOnFullyQualifiedLinks", true), opt("RequireNoFollowOnFullyQualifiedLinks", false), opt("RequireNoReferrerOnLinks", true), opt("RequireNoReferrerOnLinks", false))
 	return al
 }
 
